@@ -266,6 +266,7 @@ fn main() -> std::io::Result<()> {
         })
         .as_bytes(),
     )?;
+    buf_out.flush()?;
     Ok(())
 }
 
